@@ -105,7 +105,7 @@ static const char* errname (int e)
 		case HAWK_ENOTIDXACC: return "ENOTIDXACC"; case HAWK_ENONSCARET: return "ENONSCARET";
 		case HAWK_ENONSCATOVAR: return "ENONSCATOVAR"; case HAWK_ENONSCATOSCALAR: return "ENONSCATOSCALAR";
 		case HAWK_ENONSCATONONSCA: return "ENONSCATONONSCA"; case HAWK_ESCALARTONONSCA: return "ESCALARTONONSCA";
-		case HAWK_ENONSCATOIDX: return "ENONSCATOIDX"; case HAWK_EIONMNF: return "EIONMNF"; case HAWK_ENOTREF: return "ENOTREF"; case HAWK_ENONSCATOPOS: return "ENONSCATOPOS"; case HAWK_EINVAL: return "EINVAL"; case HAWK_ENOMEM: return "ENOMEM";
+		case HAWK_ENONSCATOIDX: return "ENONSCATOIDX"; case HAWK_EIONMNF: return "EIONMNF"; case HAWK_ENOENT: return "ENOENT"; case HAWK_ENOTREF: return "ENOTREF"; case HAWK_ENONSCATOPOS: return "ENONSCATOPOS"; case HAWK_EINVAL: return "EINVAL"; case HAWK_ENOMEM: return "ENOMEM";
 		default: snprintf(buf, sizeof(buf), "E%d", e); return buf;
 	}
 }
